@@ -155,6 +155,11 @@ class CGen:
         if k == "decl":
             if ch.chance(1, 8, "declp"):
                 return ("declp", ch.choice(["int32_t", "uint8_t", "size4u_t"], "dty"), ch.choice(["p", "q", "v1"], "dn"))
+            if ch.chance(1, 5, "decln"):
+                # a declarator list: every declarator with or without initialiser
+                names = ch.shuffle(["v1", "v2", "lx", "tmp2"], "dnames")[:ch.randint(2, 3, "ndecl")]
+                return ("decln", ch.choice(["int32_t", "uint64_t", "int8_t", "size4u_t", "int"], "dty"),
+                        [[n, self.expr(max(0, d - 1)) if ch.chance(2, 3, "dinit") else None] for n in names])
             return ("decl", ch.choice(["int32_t", "uint64_t", "int8_t", "size4u_t", "int"], "dty"),
                     ch.choice(["v1", "v2", "lx", "tmp2"], "dn"), self.expr(d) if ch.chance(3, 4, "dinit") else None)
         return ("expr", ("post", ch.choice(["++", "--"], "pop"), ("atom", ("id", ch.choice(["tmp", "a", "i"], "pid")))))
@@ -295,6 +300,17 @@ class CGen:
             return body + self.sp() + ";"
         if k == "declp":
             return f"{s[1]}{self.sp()}*{self.sp()}{s[2]}{self.sp()};"
+        if k == "decln":
+            parts = []
+            for n, init in s[2]:
+                if init is None:
+                    parts.append(n)
+                    continue
+                t = self.show(init)
+                if self.prec(init) < P_ASSIGN:
+                    t = "(" + t + ")"
+                parts.append(f"{n}{self.sp()}={' ' if t[:1] == '=' else self.sp()}{t}")
+            return f"{s[1]} " + (self.sp() + "," + self.sp()).join(parts) + self.sp() + ";"
         if k == "decl":
             if s[3] is None:
                 if self.ch.draw(4, "decl-parens") == 0:
@@ -351,6 +367,8 @@ def norm_stmt(s):
         return ("for", norm_stmt(s[1]), s[2], s[3], norm_stmt(s[4]))
     if k == "expr":
         return ("expr", norm_expr(s[1]))
+    if k == "decln":
+        return ("decln", s[1], [[n, norm_expr(i) if i is not None else None] for n, i in s[2]])
     if k == "decl":
         return ("decl", s[1], s[2], norm_expr(s[3]) if s[3] is not None else None)
     if k == "store":
@@ -490,6 +508,19 @@ def conv_stmt(c):
         dd = ch[1]
         if _is_tree(dd, "declarator") and len(dd[2]) == 2 and _is_tree(dd[2][0], "pointer") and not dd[2][0][2]:
             return ("declp", ty, _tok(dd[2][1]))
+        if _is_tree(dd, "init_declarator_list"):
+            items = []
+
+            def walk(x):
+                if _is_tree(x, "init_declarator_list"):
+                    for y in x[2]:
+                        walk(y)
+                elif _is_tree(x, "init_declarator"):
+                    items.append([_tok(x[2][0]), conv_expr(x[2][1])])
+                else:
+                    items.append([_tok(x), None])
+            walk(dd)
+            return ("decln", ty, items)
         if _is_tree(dd, "init_declarator"):
             return ("decl", ty, _tok(dd[2][0]), conv_expr(dd[2][1]))
         return ("decl", ty, _tok(dd), None)
@@ -539,6 +570,8 @@ def strip_empty(s):
         return ("for", strip_empty(s[1]), s[2], s[3], strip_empty(s[4]))
     if k == "expr":
         return ("expr", strip_expr(s[1]))
+    if k == "decln":
+        return ("decln", s[1], [[n, strip_expr(i) if i is not None else None] for n, i in s[2]])
     if k == "decl":
         return ("decl", s[1], s[2], strip_expr(s[3]) if s[3] is not None else None)
     if k == "store":
